@@ -159,7 +159,19 @@ def _sig_state(x):
     """Every array the signal object holds (instance dict, one level into dicts): cached velocity / displacement / Fourier / smoothed /
     response spectra, settings, anything a function stored on it.  Keys are only labels; no property is read."""
     out = []
+    # a cache slot whose validity flag is off holds a placeholder (the constructor's zeros, a result invalidated by clear_cache):
+    # computing it lazily inside an analysis function is not a mutation of the argument, so such slots are not part of the snapshot
+    # (before the call) and are ignored when they appear later - found by the thorough tier: calc_bandwidth_f_max on a 100 000-sample
+    # signal whose smoothed spectrum had not been warmed 'modified' the constructor's placeholder (a harness false alarm)
+    stale = set()
+    for flag, names in (("_cached_smooth_fa", ("_smooth_fa_spectrum",)), ("_cached_fa", ("_fa_spectrum", "_fa_freqs")),
+                        ("_cached_disp_and_velo", ("_velocity", "_displacement")),
+                        ("_cached_response_spectra", ("_s_a", "_s_v", "_s_d"))):
+        if not vars(x).get(flag, True):
+            stale.update(names)
     for k in sorted(vars(x)):
+        if k in stale:
+            continue
         v = vars(x)[k]
         if isinstance(v, dict):
             for kk in sorted(v, key=str):
@@ -1258,7 +1270,10 @@ def _check_form_inner(ctx, f, E, how):
         if isinstance(allargs[i], eqsig.Signal) and p[6] is not None and q[6] is not None:
             # arrays compared = those present before the call (caching a NEW auxiliary attribute on the signal, e.g. asig.swtf, is not
             # a mutation of its data)
-            have = set(k for k, _ in p[6])
+            # ... and a cache slot that the call INVALIDATED (its validity flag went off) is no longer part of the object's
+            # observable state either: compare the slots that are valid on both sides
+            have = set(k for k, _ in p[6]) & set(k for k, _ in q[6])
+            p = p[:6] + (tuple(kv for kv in p[6] if kv[0] in have),)
             q = q[:6] + (tuple(kv for kv in q[6] if kv[0] in have),)
         if p != q:
             what = "modified its argument #%d" % i
@@ -1269,8 +1284,10 @@ def _check_form_inner(ctx, f, E, how):
         return False
     # the arrays a signal argument held after the first call (lazily computed series / spectra) are untouched by the second, identical call
     for x, st0 in zip(sigargs, mid):
-        have = set(k for k, _ in st0)
-        st1 = tuple(kv for kv in _sig_state(x) if kv[0] in have)
+        st1 = _sig_state(x)
+        have = set(k for k, _ in st0) & set(k for k, _ in st1)
+        st0 = tuple(kv for kv in st0 if kv[0] in have)
+        st1 = tuple(kv for kv in st1 if kv[0] in have)
         if st1 != st0:
             ctx.fail("%s changed an array held by its signal argument (%s) when called again %s" % (name, _diff_keys(((),) * 6 + (st0,), ((),) * 6 + (st1,)), where))
     if f.flags.get("loader"):
